@@ -49,6 +49,29 @@ func genEmit(t *rapid.T) EmitCase {
 			}
 		}
 	}
+	// emit, change in place, emit again: what is reported is what was
+	// emitted at the time, not what the object became
+	if rapid.IntRange(0, 2).Draw(t, "progress") == 0 {
+		var withAction []string
+		for _, name := range a.NodeNames() {
+			if a.Nodes[name].Action != nil {
+				withAction = append(withAction, name)
+			}
+		}
+		if len(withAction) > 0 {
+			n := a.Nodes[rapid.SampledFrom(withAction).Draw(t, "progress.node")]
+			k := rapid.SampledFrom([]string{"x", "y", "n"}).Draw(t, "progress.k")
+			pre := []sm.Op{
+				{Op: "set", K: k, V: map[string]interface{}{"status": "received", "items": []interface{}{map[string]interface{}{"q": "one"}}}},
+				{Op: "emitOf", K: k},
+				{Op: "nestSet", K: k, Keys: []string{"status"}, V: "checked"},
+				{Op: "emitOf", K: k},
+				{Op: "nestSet", K: k, Keys: []string{"status"}, V: "shipped"},
+				{Op: "emitOf", K: k},
+			}
+			n.Action.Ops = append(pre, n.Action.Ops...)
+		}
+	}
 	c := EmitCase{Spec: a, Node: rapid.SampledFrom(a.NodeNames()).Draw(t, "at"), Bs: sm.GenBindings(t, "bs")}
 	for i := rapid.IntRange(1, 5).Draw(t, "nm"); i > 0; i-- {
 		c.Messages = append(c.Messages, sm.GenMessageFor(t, a, fmt.Sprintf("m%d", i)))
